@@ -44,7 +44,10 @@ SPEC = {
             "heartbeats are delivered from a pool in shuffled order, with duplicates (1 in 4 kept for later) and long delays; 1 of 5 "
             "mixes arbitrary heartbeats in; 1 of 5 is an arbitrary (illegitimate) stream over 8 ids; key spaces of 40 and 10^6 keys; "
             "after every heartbeat the answer, the whole served set (ScanRegions) and the whole stored set (LoadRegions) are "
-            "compared, plus GetRegion / GetRegionByKey on boundary keys / LoadRegion; every 4th sequence also delivers batches of 2-5 "
+            "compared, plus GetRegion / GetRegionByKey on boundary keys / LoadRegion; 1 sequence in 6 runs on the real leveldb-backed core.RegionStorage with its write batch (explicit flush ops, "
+            "M = what is on disk, reload = CheckAndPutRegion of every stored region into a fresh cache); in the other sequences "
+            "1 delivery in 10 is HELD at its first storage write by a gated kv.Base while 1-3 other heartbeats (a newer one of "
+            "the same region with preference) are handled, then released; every 4th sequence also delivers batches of 2-5 "
             "heartbeats from concurrent goroutines (judged by the monitor: explained by some one-at-a-time order); non-trivial = "
             "at least 5 accepted and 1 rejected heartbeat and at least two regions served at once; distinct = distinct op sequence",
     "model_text": "PdModel/Model/RegionCache.lean: PreCheckPutRegion/getRelevantRegions, the flag computation, the locked "
@@ -69,7 +72,9 @@ SPEC = {
                   "tied by correspondence (exact on generated histories, statistical beyond); TiKV is modelled (TikvSim); heartbeats "
                   "are well-formed regions (start < end or unbounded end) - a heartbeat with an inverted range is outside the "
                   "property's domain and does corrupt the real tree (docs/C06.md); concurrent batches on the real code are judged by "
-                  "the monitor only (schedules not controlled); storage errors are not injected; the -race build is not used.",
+                  "the monitor only (schedules not controlled); the batched region storage (RegionStorage.save/remove/flush), reload and the "
+                  "held-heartbeat steps are modelled and monitored (StepOkBatched / FlushOk / GateOk / ReleaseOk) but have no theorem; "
+                  "RegionStorage's 3 s background flush timer is not modelled (a sequence never idles that long); storage errors are not injected; the -race build is not used.",
     "technique": "Lean 4 refinement + invariant proofs over heartbeat histories and interleavings + differential correspondence + verified monitor",
     "assumptions": [
         "heartbeats are well-formed regions (real key range, one peer per store, pending peers on peer stores)",
